@@ -127,7 +127,7 @@ def dedup_lines(path):
 
 
 def heap_gen_validate(work, v, profile, depth, scope="quick", simulate=None, seed=None, label=""):
-    cfg = write_cfg(work, "Gen_Heap_%s_%s.cfg" % (profile, label or depth), invariants=["Emit", "RectInv"],
+    cfg = write_cfg(work, "Gen_Heap_%s_%s.cfg" % (profile, label or depth), invariants=["Emit", "RectInv", "RaggedOnlyBy3Frames"],
                     constants={"Depth": depth, "Profile": profile, "Scope": scope})
     cases, n, r = vf.tlc_gen(work, "Gen_Heap", cfg, workers=1 if simulate else 8, simulate=simulate,
                              depth=depth + 3 if simulate else None, seed=seed)
@@ -149,6 +149,8 @@ def heap_random_validate(work, v, mode, n, seed, tier):
 
 # bounded models of the specification: name -> (invariants, constants for quick, constants for thorough)
 MC = {
+    "MC_Sites": (["PrefixSuffix", "WindowInverse", "PositionsInverse", "SplitReassemble", "ModuloPartition", "TransposeTwice",
+                  "DiffRoundTrip", "RefWindowMinimal", "TrimIsSubAlign"], {"MaxLen": 2}, {"MaxLen": 4}),
     "MC_Transforms": (["Involution", "KeepsShape", "CaseIdem", "CaseOnly", "UngapKept", "ObjLevel"], {"MaxLen": 2}, {"MaxLen": 3}),
 }
 
@@ -194,3 +196,8 @@ def replay(work, v, prop, path):
         heap_account(v, trace, res)
         return v.finish()
     raise vf.ToolingError("unknown replay family")
+
+PIPELINES["C01"] = heap_pipeline("C01", quick=dict(depth=1, sim=(25, 4), rand=250),
+                                 thorough=dict(depth=2, sim=(400, 6), rand=4000))
+PIPELINES["C04"] = heap_pipeline("C04", quick=dict(depth=1, sim=(6, 3), rand=250),
+                                 thorough=dict(depth=2, sim=(100, 5), rand=4000), mc=["MC_Sites"])
